@@ -43,6 +43,7 @@ func (br *boundsRun) prover(fn *ssa.Function) *bprover {
 	br.provers[fn] = p
 	p.entryFacts = append(p.entryFacts, br.callbackFacts(p)...)
 	p.entryFacts = append(p.entryFacts, p.contractEntryFacts()...)
+	p.entryFacts = append(p.entryFacts, p.parserEntryFacts()...)
 	return p
 }
 
